@@ -62,7 +62,7 @@ def getPair (j : Json) : Option (Nat × Nat) := do
 def showPos (found : List MapAttr) (s : St) (k : Nat × Nat) : String :=
   let pos := do
     let d ← (findProg s.progs k.1).bind (resolve · k.2)
-    if found.any (·.map = d.map) then positionOf (triples d.map s.progs) k else none
+    if found.any (·.map = d.map) then s.dicts.get k else none
   s!"{k.1}.{k.2}@" ++ (match pos with | some p => toString p | none => "-")
 
 def percpuPart (j : Json) (s : St) : Option String := do
@@ -86,11 +86,48 @@ def percpuPart (j : Json) (s : St) : Option String := do
       | _ => none
     pure (s!"{size}x{cpus}:" ++ joinSp outs)
 
+def getSet3 (j : Json) : Option (Nat × Nat × List Int) := do
+  match ← jArr j with
+  | [a, b, c] => pure (← jNat a, ← jNat b, ← (← jArr c).mapM jInt)
+  | _ => none
+
+def worldFmt (w : World) (pid name : Nat) : Fmt :=
+  match (w.objOf pid).bind fun o => (findProg o.progs pid).bind (resolve · name) with
+  | some d => d.fmt
+  | none => .fixed
+
+/-- an earlier object of the process: created, then written from Python; its line -/
+def preStep (w : World) (j : Json) : Option (World × String) := do
+  let progs ← (← fArr j "progs").mapM getProg
+  let attrs ← getAttrs (← field j "mapmro")
+  let found := ebpfDiscover attrs
+  let main ← fNat j "main"
+  let w1 := w.create main found progs
+  let sets ← (← fArr j "sets").mapM getSet3
+  let reads ← (← fArr j "reads").mapM getPair
+  let maps := ",".intercalate ((initMaps found progs).map fun (a, sz) => s!"{a.map}:{sz}")
+  let pos := joinSp (reads.map fun k => s!"{k.1}.{k.2}@" ++ (match w1.dicts.get k with | some p => toString p | none => "-"))
+  let (w2, es) := sets.foldl (fun (acc : World × List String) (p, n, vs) =>
+    match acc.1.pySet p n vs with
+    | .ok w' => (w', acc.2 ++ ["ok"])
+    | .error e => (acc.1, acc.2 ++ [showErr e])) (w1, [])
+  pure (w2, s!"maps={maps} pos={pos} ops={",".intercalate es}")
+
 def step (j : Json) : Option String := do
   let progs ← (← fArr j "progs").mapM getProg
   let attrs ← getAttrs (← field j "mapmro")
   let found := if (← fStr j "discover") = "sim" then simDiscover attrs else ebpfDiscover attrs
-  let s0 := mkSt found progs
+  -- the objects created earlier in the same process (second instances of the class, subprograms used before)
+  let pres ← match field j "pre" with
+    | some p => jArr p
+    | none => pure []
+  let mut w : World := World.empty
+  let mut preLines : List String := []
+  for pj in pres do
+    let (w', l) ← preStep w pj
+    w := w'
+    preLines := preLines ++ [l]
+  let s0 := mkStFrom w.dicts found progs
   let ops ← (← fArr j "ops").mapM getOp
   let reads ← (← fArr j "reads").mapM getPair
   let (s1, errs) := s0.run ops
@@ -107,6 +144,14 @@ def step (j : Json) : Option String := do
   let es := ",".intercalate (errs.map fun | none => "ok" | some e => showErr e)
   let bytes := ",".intercalate (s.arrays.map fun (m, d) => s!"{m}:" ++ hexOfBytes d)
   let vals := joinSp (reads.map fun k => showRes (fmtOf s k.1 k.2) (s.pyGet k.1 k.2))
-  pure s!"maps={maps} layout={oks} pos={pos} ops={es} prog={match perr with | none => "ok" | some e => showErr e} bytes={bytes} reads={vals} percpu={← percpuPart j s}"
+  let line := s!"maps={maps} layout={oks} pos={pos} ops={es} prog={match perr with | none => "ok" | some e => showErr e} bytes={bytes} reads={vals} percpu={← percpuPart j s}"
+  if pres.isEmpty then return line
+  -- the earlier objects, looked at again after this one was created
+  let w1 := w.create 0 found progs
+  let prereads ← match field j "prereads" with
+    | some p => (← jArr p).mapM getPair
+    | none => pure []
+  let pv := joinSp (prereads.map fun k => showRes (worldFmt w1 k.1 k.2) (w1.pyGet k.1 k.2))
+  pure (line ++ " pre=" ++ " ; ".intercalate preLines ++ " prereads=" ++ pv)
 
 def main : IO Unit := driverMain step
